@@ -281,6 +281,15 @@ func VerifDir() string {
 	return "/verif"
 }
 
+// OutDir is where evidence/ and replays/ are written: /verif, or $VERIF_OUT_DIR for self-test runs against a
+// scratch copy of the repository (so that they never overwrite the evidence of the real tree).
+func OutDir() string {
+	if d := os.Getenv("VERIF_OUT_DIR"); d != "" {
+		return d
+	}
+	return VerifDir()
+}
+
 func loadKnown() Known {
 	var k Known
 	b, err := os.ReadFile(filepath.Join(VerifDir(), "known_findings.json"))
@@ -613,8 +622,8 @@ func finish(chk *Check, tier string, seed int, start time.Time, nspecs int, a *a
 		"violations":  len(fresh),
 	}
 	b, _ := json.MarshalIndent(ev, "", " ")
-	os.MkdirAll(filepath.Join(VerifDir(), "evidence"), 0o755)
-	if err := os.WriteFile(filepath.Join(VerifDir(), "evidence", chk.ID+".json"), b, 0o644); err != nil {
+	os.MkdirAll(filepath.Join(OutDir(), "evidence"), 0o755)
+	if err := os.WriteFile(filepath.Join(OutDir(), "evidence", chk.ID+".json"), b, 0o644); err != nil {
 		HarnessError("evidence: %v", err)
 	}
 	fmt.Printf("%s tier=%s scenarios=%d/%d states=%d transitions=%d traces=%d evals=%d nontrivial=%d exhaustive=%v violations=%d known=%d wall=%.1fs\n",
@@ -625,7 +634,7 @@ func finish(chk *Check, tier string, seed int, start time.Time, nspecs int, a *a
 func writeReplay(v Violation) string {
 	b, _ := json.MarshalIndent(v, "", " ")
 	s := sha1.Sum(append([]byte(v.Class), v.Spec...))
-	dir := filepath.Join(VerifDir(), "replays")
+	dir := filepath.Join(OutDir(), "replays")
 	os.MkdirAll(dir, 0o755)
 	p := filepath.Join(dir, v.Property+"-"+hex.EncodeToString(s[:6])+".json")
 	os.WriteFile(p, b, 0o644)
